@@ -386,15 +386,50 @@ theorem payment_line_total (pl : PaymentLine) (cur : String) (e : ℕ) (rates : 
   line_total pl cur e rates lt h
 
 open GoblVerif.Payment in
-/-- `ExchangeRate.Convert` of an amount written at the destination currency's
-    precision is the exact product with the declared rate, rounded half away from
-    zero — inside the float-exact domain.  (For amounts at another precision the
-    Go code rounds at the amount's precision first: known findings
-    `convert-amount-coarser-than-target`, `convert-double-rounding`.) -/
+/-- `ExchangeRate.Convert` of an amount of *any* precision is the exact product
+    with the declared rate, rounded half away from zero once, to the destination
+    currency's precision — inside the float-exact domain (the product of the
+    amount's value, scaled up to the destination precision when it is coarser,
+    and the rate's value stays below 2^52; `Multiply` divides by at most 10^22).
+    Before fix 7d1829e this held only for `a.exp = er.toExp`: a coarser amount
+    lost the decimals of the product, a finer one was rounded twice. -/
 theorem convert_is_exact_rounding (er : ExchangeRate) (a : Amount)
-    (hm : |a.value * er.amount.value| < 2 ^ 52) (he : er.amount.exp ≤ 22) (hx : a.exp = er.toExp) :
+    (hm : |a.value * pow10 (er.toExp - a.exp) * er.amount.value| < 2 ^ 52)
+    (he : er.amount.exp + (a.exp - er.toExp) ≤ 22) :
     er.convert a = convertSpec er.amount.toRat er.toExp a :=
-  convert_exact er a hm he hx
+  convert_exact er a hm he
+
+open GoblVerif.Payment in
+/-- the converted amount is at the destination currency's precision, whatever
+    the precision of the amount and of the rate (no domain condition) -/
+theorem convert_at_destination_precision (er : ExchangeRate) (a : Amount) :
+    (er.convert a).exp = er.toExp :=
+  convert_exp er a
+
+open GoblVerif.Payment in
+/-- how an amount is written plays no role: two spellings of the same value
+    (`100` and `100.00`) convert to the same result -/
+theorem convert_ignores_spelling (er : ExchangeRate) (a b : Amount) (hab : a.toRat = b.toRat)
+    (hma : |a.value * pow10 (er.toExp - a.exp) * er.amount.value| < 2 ^ 52)
+    (hea : er.amount.exp + (a.exp - er.toExp) ≤ 22)
+    (hmb : |b.value * pow10 (er.toExp - b.exp) * er.amount.value| < 2 ^ 52)
+    (heb : er.amount.exp + (b.exp - er.toExp) ≤ 22) :
+    er.convert a = er.convert b :=
+  convert_precision_irrelevant er a b hab hma hea hmb heb
+
+open GoblVerif.Payment in
+/-- A payment line in a foreign currency: its total is, to the unit, the
+    specification Σ — debit times rate rounded once to the payment currency,
+    minus credit times rate rounded once — for debit and credit of any precision
+    (`r` is the first declared rate from the line's currency to the payment's;
+    `convDomain`: the float-exact domain of `convert_is_exact_rounding`). -/
+theorem payment_line_total_converted (pl : PaymentLine) (cur : String) (e : ℕ) (rates : List ExchangeRate)
+    (r : ExchangeRate) (lt : Amount) (hc : pl.currency ≠ "") (hne : pl.currency ≠ cur)
+    (hr : matchExchangeRate rates pl.currency cur = some r) (hre : r.toExp = e)
+    (hd : convDomain r pl.debit) (hcr : convDomain r pl.credit)
+    (h : pl.calculate cur e rates = .ok lt) :
+    lt = ⟨specSide r.amount.toRat e pl.debit - specSide r.amount.toRat e pl.credit, e⟩ :=
+  converted_line_total pl cur e rates r lt hc hne hr hre hd hcr h
 
 open GoblVerif.Payment in
 /-- the payment's tax summary is the left-to-right merge of the recalculated
@@ -428,6 +463,29 @@ example : groupFigure (·.base.value) "VAT" r20 (tA.merge tB) = 15000 ∧
 example : allZero (tA.merge tA.negate) = true ∧ isNegationOf tA tA.negate = true := by decide +kernel
 
 
+/- conversion: the two inputs of the former findings lie inside the domain of
+   `convert_is_exact_rounding`, and the model gives the specified results
+   (1500 JPY at 0.0061 = 9.15 EUR, not 9.00; 0.0010 USD at 4.9995 = 0.00 EUR, not
+   0.01; 2.01 EUR at 163.93 = 329 JPY, not 330) -/
+private def jpyEur : Payment.ExchangeRate := ⟨"JPY", "EUR", ⟨61, 4⟩, 2⟩
+private def usdEur : Payment.ExchangeRate := ⟨"USD", "EUR", ⟨49995, 4⟩, 2⟩
+private def eurJpy : Payment.ExchangeRate := ⟨"EUR", "JPY", ⟨16393, 2⟩, 0⟩
+
+example : |(1500 : ℤ) * pow10 (jpyEur.toExp - 0) * jpyEur.amount.value| < 2 ^ 52 ∧ jpyEur.amount.exp + (0 - jpyEur.toExp) ≤ 22 := by decide
+example : |(10 : ℤ) * pow10 (usdEur.toExp - 4) * usdEur.amount.value| < 2 ^ 52 ∧ usdEur.amount.exp + (4 - usdEur.toExp) ≤ 22 := by decide
+example : jpyEur.convert ⟨1500, 0⟩ = ⟨915, 2⟩ := by
+  rw [convert_is_exact_rounding _ _ (by decide) (by decide)]; decide +kernel
+example : usdEur.convert ⟨10, 4⟩ = ⟨0, 2⟩ := by
+  rw [convert_is_exact_rounding _ _ (by decide) (by decide)]; decide +kernel
+example : eurJpy.convert ⟨201, 2⟩ = ⟨329, 0⟩ ∧ eurJpy.convert ⟨-201, 2⟩ = ⟨-329, 0⟩ := by
+  rw [convert_is_exact_rounding _ _ (by decide) (by decide), convert_is_exact_rounding _ _ (by decide) (by decide)]
+  decide +kernel
+example : (⟨100, 0⟩ : Amount).toRat = (⟨10000, 2⟩ : Amount).toRat := by decide +kernel
+example : Payment.convDomain jpyEur (some ⟨1500, 0⟩) ∧ Payment.convDomain jpyEur none := by
+  constructor
+  · intro a h; cases h; decide
+  · intro a h; cases h
+
 /-! ## expectations over facts regenerated from /repo on every run
 
 The records of Model/Merge.lean carry exactly these fields; `Negate` negates
@@ -448,7 +506,8 @@ theorem merge_adds_seven_amounts : calls_Total_Merge =
     ["Clone", "new", "append", "clone", "append", "Add", "Add", "Matches", "append", "clone",
      "Add", "Add", "Add", "Add", "Add"] := by decide
 theorem matches_compares_three : calls_RateTotal_Matches = ["Equals", "Equals", "Equals"] := by decide
-theorem convert_multiplies_then_rescales : calls_ExchangeRate_Convert = ["Multiply", "Zero", "Def", "Rescale", "Exp"] := by decide
+theorem convert_raises_then_multiplies_once : calls_ExchangeRate_Convert =
+    ["Exp", "Zero", "Def", "Exp", "Exp", "MakeAmount", "Value", "Exp", "MakeAmount", "Value", "Multiply", "RescaleUp"] := by decide
 theorem line_adds_debit_subtracts_credit : calls_PaymentLine_calculate =
     ["Zero", "Def", "Convert", "Errorf", "MatchPrecision", "Add", "Convert", "Errorf", "MatchPrecision", "Subtract"] := by decide
 theorem payment_recalculates_clones_merges_adds : calls_Payment_calculate =
